@@ -8,11 +8,27 @@
 //!        chain whose non-units are the listed torsion tokens (the model ignores these expectations).
 //!   cx <ring> <ddeg> <L> <c_0..c_(L-1)> <rows_0..rows_(L-1)> <mat_0> .. <mat_(L-1)>
 //!        GenericChainComplex::generate(0..L, ddeg, i -> mat_i (rows_i x c_i)).homology()  (public route)
+//!   mg <ring> <ddeg> <valid> <L> <c_0..> <rows_0..> <mat_0> .. <mat_(L-1)> <sd_0> .. <sd_(L-1)>
+//!        a complex whose summands carry coordinate maps: raw complex g = generate(0..L, ddeg, mats) as in cx, summand of
+//!        degree i described by sd_i =  0                                  (free: g[i])
+//!                                   |  1 r F(r x c_i) B(c_i x r)          Summand::new(raw, r, [], Trans::new(F, B))
+//!                                   |  2 r1 F1 B1 r2 F2(r2 x r1) B2       Summand::new(.., Trans::new(F1,B1)).merge(Summand::new(.., Trans::new(F2,B2)))
+//!                                   |  3 r1 F1 B1 r2 F2 B2                Summand::new(raw, r2, [], Trans::new(F1,B1).merged(&Trans::new(F2,B2)))
+//!        cb = ChainComplexBase::new(summands, ddeg, g.d); per degree: h = cb.compute_homology_at(i, true);
+//!        sm = cb[i].clone().merge(h)  (Summand::merge = Trans::merge + Trans::reduce);  sl = cb.homology_at(i);
+//!        st = from_raw_gens(..).merge(cb[i]).merge(h)  (merge of an already merged summand).
+//!        valid = 1: the generator built a complex and unimodular inverse pairs (the clauses are meaningful).
+//!   rd <ring> <ddeg> <L> <c_0..> <rows_0..> <mat_0> ..      cr = generate(..).reduced(); per degree
+//!        s = cr[i].clone(); s.merge(cr.compute_homology_at(i, true))   (clauses on the implementation's output, the
+//!        elimination order is hash dependent; exactly compared: rank and number of torsion summands)
 //! Entries are single tokens: integers, `a:b` quadratic integers a + b*omega, rationals `n/d`,
 //! polynomials `c0_c1_.._cd` (rings qx = Q[x], f3x = F_3[x]).
 //! Result line:  <observables> | <property clauses evaluated on the implementation's own output>
 //!   hc:  R=<rank> T=<tors> F=<forward mat> B=<backward mat> | cyc= pq= bnd= shape= rank= tors=
 //!   cx:  per degree  i:R= T= F= B= G=<gen(j)> E=<vectorize_euc(d(e_j))>  joined by " ; "  | cyc= vec= bnd=
+//!   mg:  per degree  i:R= T= F= B= G=<gen(k)> E=<vectorize_euc(d(e_j))> D=<devectorize(1,..,1)> LF= LB= TF= TB=
+//!        (F/B of sm, then of sl and st)  | cyc= vec= bnd= pq= same= inv=   (w.r.t. the ORIGINAL complex g)
+//!   rd:  per degree  i:R= N=  | cyc= vec= bnd= pq= same= inv=
 //!   `P` = the call panicked; observables are `SKIP` for the rings without a model dictionary (qx, f3x).
 //! The generator is text-only (own arithmetic); it never calls the implementation to construct inputs.
 use num_bigint::BigInt;
@@ -21,8 +37,8 @@ use yui::poly::Poly;
 use yui::{EisenInt, EucRing, EucRingOps, GaussInt, Ratio, FF, FF2};
 use yui::lc::Lc;
 use yui_homology::utils::HomologyCalc;
-use yui_homology::{ChainComplexTrait, EnumGen, GenericChainComplex, GridTrait, SummandTrait};
-use yui_matrix::sparse::{SpMat, SpVec};
+use yui_homology::{ChainComplexBase, ChainComplexTrait, ComputeHomology, EnumGen, GenericChainComplex, Grid, GridTrait, Summand, SummandTrait};
+use yui_matrix::sparse::{SpMat, SpVec, Trans};
 use yui_matrix::MatTrait;
 use yui_verif_harness::*;
 
@@ -309,6 +325,254 @@ where for<'a> &'a R: EucRingOps<R> {
     }
 }
 
+
+// ------------------------------------------------------------------------------------------------
+// complexes whose summands carry coordinate maps: Summand::merge / Trans::reduce
+// ------------------------------------------------------------------------------------------------
+type GS<R> = Summand<EnumGen<isize>, R>;
+
+/// summand descriptor of an `mg` case (matrices parsed, nothing of the API under test called yet)
+struct Desc<R> where R: EucRing, for<'a> &'a R: EucRingOps<R> {
+    v: usize,
+    r1: usize,
+    r2: usize,
+    f1: Option<SpMat<R>>,
+    b1: Option<SpMat<R>>,
+    f2: Option<SpMat<R>>,
+    b2: Option<SpMat<R>>,
+}
+fn take_mat<'a, R: Elt + EucRing>(e: &mut &'a [&'a str], m: usize, n: usize) -> SpMat<R>
+where for<'x> &'x R: EucRingOps<R> {
+    let k = m * n;
+    assert!(e.len() >= k, "too few tokens");
+    let a = parse_sp(m, n, &e[..k]);
+    *e = &e[k..];
+    a
+}
+fn take_num<'a>(e: &mut &'a [&'a str]) -> usize {
+    let x = e[0].parse().unwrap();
+    *e = &e[1..];
+    x
+}
+fn parse_desc<'a, R: Elt + EucRing>(e: &mut &'a [&'a str], c: usize) -> Desc<R>
+where for<'x> &'x R: EucRingOps<R> {
+    let v = take_num(e);
+    match v {
+        0 => Desc { v, r1: c, r2: c, f1: None, b1: None, f2: None, b2: None },
+        1 => {
+            let r1 = take_num(e);
+            let f1 = take_mat(e, r1, c);
+            let b1 = take_mat(e, c, r1);
+            Desc { v, r1, r2: r1, f1: Some(f1), b1: Some(b1), f2: None, b2: None }
+        }
+        2 | 3 => {
+            let r1 = take_num(e);
+            let f1 = take_mat(e, r1, c);
+            let b1 = take_mat(e, c, r1);
+            let r2 = take_num(e);
+            let f2 = take_mat(e, r2, r1);
+            let b2 = take_mat(e, r1, r2);
+            Desc { v, r1, r2, f1: Some(f1), b1: Some(b1), f2: Some(f2), b2: Some(b2) }
+        }
+        _ => panic!("bad summand descriptor"),
+    }
+}
+fn build_summand<R: Elt + EucRing>(d: &Desc<R>, i: isize, free: &GS<R>) -> GS<R>
+where for<'a> &'a R: EucRingOps<R> {
+    let raw = free.raw_gens().clone();
+    match d.v {
+        0 => free.clone(),
+        1 => Summand::new(raw, d.r1, vec![], Trans::new(d.f1.clone().unwrap(), d.b1.clone().unwrap())),
+        2 => {
+            let mut s = Summand::new(raw, d.r1, vec![], Trans::new(d.f1.clone().unwrap(), d.b1.clone().unwrap()));
+            let mid: GS<R> = Summand::new(
+                (0..d.r1).map(|j| EnumGen(i, j)).collect(), d.r2, vec![],
+                Trans::new(d.f2.clone().unwrap(), d.b2.clone().unwrap()));
+            s.merge(mid);
+            s
+        }
+        _ => {
+            let t1 = Trans::new(d.f1.clone().unwrap(), d.b1.clone().unwrap());
+            let t2 = Trans::new(d.f2.clone().unwrap(), d.b2.clone().unwrap());
+            Summand::new(raw, d.r2, vec![], t1.merged(&t2))
+        }
+    }
+}
+
+struct Flags {
+    cyc: bool,
+    vec: bool,
+    bnd: bool,
+    pq: bool,
+    same: bool,
+    inv: bool,
+}
+impl Flags {
+    fn new() -> Self { Flags { cyc: true, vec: true, bnd: true, pq: true, same: true, inv: true } }
+    fn show(&self) -> String {
+        format!("cyc={} vec={} bnd={} pq={} same={} inv={}", b01(self.cyc), b01(self.vec), b01(self.bnd), b01(self.pq), b01(self.same), b01(self.inv))
+    }
+}
+
+/// the clauses of the property for a summand `s` that claims to be H_i of the ORIGINAL complex `g`;
+/// returns (generators, reduced coordinates of the boundaries)
+fn summand_clauses<R: Elt + EucRing>(g: &GenericChainComplex<R>, l: usize, ddeg: isize, i: isize, s: &GS<R>, fl: &mut Flags) -> (String, String)
+where for<'a> &'a R: EucRingOps<R> {
+    let n = g[i].rank();
+    let dim = s.rank() + s.tors().len();
+    let mut gens = String::new();
+    for j in 0..dim {
+        let z = s.gen(j);
+        fl.cyc &= g.d(i, &z).is_zero();
+        fl.vec &= s.vectorize(&z).to_dense() == SpVec::<R>::unit(dim, j).to_dense();
+        match lc_to_vec(&z, n) {
+            Some(v) => gens.push_str(&show_vec(&v)),
+            None => gens.push_str("BAD-GEN"),
+        }
+    }
+    let kin = i - ddeg;
+    let mut bs = String::new();
+    if kin >= 0 && (kin as usize) < l {
+        for j in 0..g[kin].rank() {
+            let x = g[kin].gen(j);
+            let z = g.d(kin, &x);
+            let v = s.vectorize_euc(&z);
+            fl.bnd &= v.is_zero();
+            bs.push_str(&show_vec(&v.to_dense()));
+        }
+    }
+    (gens, bs)
+}
+fn same_summand<R: Elt + EucRing>(a: &GS<R>, b: &GS<R>) -> bool
+where for<'x> &'x R: EucRingOps<R> {
+    a.rank() == b.rank() && a.tors() == b.tors()
+        && a.trans().forward_mat() == b.trans().forward_mat()
+        && a.trans().backward_mat() == b.trans().backward_mat()
+}
+fn same_module<R: Elt + EucRing>(a: &GS<R>, b: &GS<R>) -> bool
+where for<'x> &'x R: EucRingOps<R> {
+    a.rank() == b.rank() && a.tors().len() == b.tors().len() && a.tors().iter().zip(b.tors().iter()).all(|(x, y)| assoc(x, y))
+}
+
+fn parse_complex<'a, R: Elt + EucRing>(t: &'a [&'a str]) -> (usize, Vec<usize>, Vec<SpMat<R>>, &'a [&'a str])
+where for<'x> &'x R: EucRingOps<R> {
+    let l: usize = t[0].parse().unwrap();
+    let dims: Vec<usize> = t[1..1 + l].iter().map(|s| s.parse().unwrap()).collect();
+    let rows: Vec<usize> = t[1 + l..1 + 2 * l].iter().map(|s| s.parse().unwrap()).collect();
+    let mut e = &t[1 + 2 * l..];
+    let mut mats: Vec<SpMat<R>> = vec![];
+    for i in 0..l {
+        mats.push(take_mat(&mut e, rows[i], dims[i]));
+    }
+    (l, dims, mats, e)
+}
+
+fn run_mg<R: Elt + EucRing>(ring: &str, ddeg: isize, t: &[&str]) -> String
+where for<'a> &'a R: EucRingOps<R> {
+    let (l, dims, mats, mut e) = parse_complex::<R>(&t[1..]);
+    let descs: Vec<Desc<R>> = (0..l).map(|i| parse_desc(&mut e, dims[i])).collect();
+    assert!(e.is_empty(), "too many tokens");
+    let res = guarded(move || {
+        let ms = mats.clone();
+        let g = GenericChainComplex::<R>::generate(0..(l as isize), ddeg, |i| {
+            if i >= 0 && (i as usize) < l { ms[i as usize].clone() } else { SpMat::zero((0, 0)) }
+        });
+        let summands = Grid::generate(0..(l as isize), |i| build_summand(&descs[i as usize], i, &g[i]));
+        let g2 = g.clone();
+        let cb = ChainComplexBase::new(summands, ddeg, move |i, z| g2.d(i, z));
+        let mut parts = vec![];
+        let mut fl = Flags::new();
+        for i in cb.support() {
+            let c = &cb[i];
+            let h = cb.compute_homology_at(i, true);
+            // Summand::merge (Trans::merge + Trans::reduce)
+            let mut sm = c.clone();
+            sm.merge(h.clone());
+            // the library's route (merged, never reduced)
+            let sl = cb.homology_at(i);
+            // merge of an already merged summand
+            let mut st: GS<R> = Summand::from_raw_gens(c.raw_gens().iter().cloned());
+            st.merge(c.clone());
+            st.merge(h);
+            let (p, q) = (sm.trans().forward_mat(), sm.trans().backward_mat());
+            let mut fl1 = Flags::new();
+            let (gens, bs) = summand_clauses(&g, l, ddeg, i, &sm, &mut fl1);
+            let dim = sm.rank() + sm.tors().len();
+            let ones = SpVec::<R>::from((0..dim).map(|_| R::one()).collect::<Vec<_>>());
+            let dv = match lc_to_vec(&sm.devectorize(&ones), g[i].rank()) {
+                Some(v) => show_vec(&v),
+                None => "BAD".into(),
+            };
+            fl.pq &= p.shape() == (dim, g[i].rank()) && q.shape() == (g[i].rank(), dim) && (&p * &q).is_id();
+            fl.same &= same_summand(&sm, &sl) && same_summand(&sm, &st);
+            // the library's summand must satisfy the same clauses
+            let mut fl2 = Flags::new();
+            let (gens_l, bs_l) = summand_clauses(&g, l, ddeg, i, &sl, &mut fl2);
+            fl.same &= gens_l == gens && bs_l == bs && fl2.cyc == fl1.cyc && fl2.vec == fl1.vec && fl2.bnd == fl1.bnd;
+            fl.cyc &= fl1.cyc;
+            fl.vec &= fl1.vec;
+            fl.bnd &= fl1.bnd;
+            // the homology module does not depend on the coordinates (the raw matrices need not be a complex: guarded)
+            fl.inv &= guarded(|| same_module(&sm, &g.homology_at(i))).unwrap_or(false);
+            parts.push(format!(
+                "{}:R={} T={} F={} B={} G={} E={} D={} LF={} LB={} TF={} TB={}",
+                i, sm.rank(), show_tors(sm.tors()), show_sp(&p), show_sp(&q), gens, bs, dv,
+                show_sp(&sl.trans().forward_mat()), show_sp(&sl.trans().backward_mat()),
+                show_sp(&st.trans().forward_mat()), show_sp(&st.trans().backward_mat())));
+        }
+        (parts.join(" ; "), fl.show())
+    });
+    match res {
+        None => "P".into(),
+        Some((obs, cl)) => {
+            let obs = if has_model(ring) { obs } else { "SKIP".into() };
+            format!("{} | {}", obs, cl)
+        }
+    }
+}
+
+fn run_rd<R: Elt + EucRing>(ring: &str, ddeg: isize, t: &[&str]) -> String
+where for<'a> &'a R: EucRingOps<R> {
+    let (l, _dims, mats, e) = parse_complex::<R>(t);
+    assert!(e.is_empty(), "too many tokens");
+    let res = guarded(move || {
+        let ms = mats.clone();
+        let g = GenericChainComplex::<R>::generate(0..(l as isize), ddeg, |i| {
+            if i >= 0 && (i as usize) < l { ms[i as usize].clone() } else { SpMat::zero((0, 0)) }
+        });
+        let cr = g.reduced();
+        let mut parts = vec![];
+        let mut fl = Flags::new();
+        for i in cr.support() {
+            let mut s = cr[i].clone();
+            s.merge(cr.compute_homology_at(i, true));
+            let sl = cr.homology_at(i);
+            let (p, q) = (s.trans().forward_mat(), s.trans().backward_mat());
+            let mut fl1 = Flags::new();
+            let (gens, bs) = summand_clauses(&g, l, ddeg, i, &s, &mut fl1);
+            let dim = s.rank() + s.tors().len();
+            fl.pq &= p.shape() == (dim, g[i].rank()) && q.shape() == (g[i].rank(), dim) && (&p * &q).is_id();
+            fl.same &= same_summand(&s, &sl);
+            let mut fl2 = Flags::new();
+            let (gens_l, bs_l) = summand_clauses(&g, l, ddeg, i, &sl, &mut fl2);
+            fl.same &= gens_l == gens && bs_l == bs && fl2.cyc == fl1.cyc && fl2.vec == fl1.vec && fl2.bnd == fl1.bnd;
+            fl.cyc &= fl1.cyc;
+            fl.vec &= fl1.vec;
+            fl.bnd &= fl1.bnd;
+            fl.inv &= same_module(&s, &g.homology_at(i));
+            parts.push(format!("{}:R={} N={}", i, s.rank(), s.tors().len()));
+        }
+        (parts.join(" ; "), fl.show())
+    });
+    match res {
+        None => "P".into(),
+        Some((obs, cl)) => {
+            let obs = if has_model(ring) { obs } else { "SKIP".into() };
+            format!("{} | {}", obs, cl)
+        }
+    }
+}
+
 macro_rules! dispatch {
     ($ring:expr, $f:ident, $($args:expr),*) => {
         match $ring {
@@ -350,6 +614,16 @@ fn run_case_inner(line: &str) -> String {
             let ddeg: isize = t[2].parse().unwrap();
             let rest = &t[3..];
             dispatch!(ring, run_cx, ring, ddeg, rest)
+        }
+        "mg" => {
+            let ddeg: isize = t[2].parse().unwrap();
+            let rest = &t[3..];
+            dispatch!(ring, run_mg, ring, ddeg, rest)
+        }
+        "rd" => {
+            let ddeg: isize = t[2].parse().unwrap();
+            let rest = &t[3..];
+            dispatch!(ring, run_rd, ring, ddeg, rest)
         }
         _ => panic!("bad case {}", line),
     }
@@ -750,6 +1024,85 @@ fn cx_case(r: &mut Rng, p: &Plan, len: usize, ddeg: i64, malformed: bool) -> Str
     join_nonempty(&parts)
 }
 
+
+/// tokens of a change-of-basis matrix (never scaled: the pair must stay inverse)
+fn unit_toks(p: &Plan, m: &GM) -> String {
+    m.iter().flatten().map(|x| if p.rational { format!("{}/1", x.0[0]) } else { tok_g(p.fam, x) }).collect::<Vec<_>>().join(" ")
+}
+
+/// a complex whose summands carry unimodular coordinate maps (Summand::merge / Trans::reduce)
+fn mg_case(r: &mut Rng, p: &Plan, len: usize, ddeg: i64) -> String {
+    let base = cx_case(r, p, len, ddeg, false);
+    let toks: Vec<&str> = base.split_whitespace().collect();
+    let l: usize = toks[3].parse().unwrap();
+    let dims: Vec<usize> = toks[4..4 + l].iter().map(|s| s.parse().unwrap()).collect();
+    let mut parts = vec![format!("mg {} {} 1", p.ring, ddeg), toks[3..].join(" ")];
+    let forced = r.below(l as u64) as usize;
+    for i in 0..l {
+        let c = dims[i];
+        let mut v = *r.pick(&[0usize, 1, 1, 2, 3]);
+        if i == forced && v == 0 { v = 1 + r.below(3) as usize; }
+        let mut d = vec![v.to_string()];
+        let pairs = match v { 0 => 0, 1 => 1, _ => 2 };
+        for _ in 0..pairs {
+            let (u, ui) = unimodular(r, p.fam, c, p.steps.max(3), p.bound.min(2));
+            d.push(c.to_string());
+            d.push(unit_toks(p, &u));
+            d.push(unit_toks(p, &ui));
+        }
+        parts.push(join_nonempty(&d));
+    }
+    join_nonempty(&parts)
+}
+
+/// arbitrary small matrices and coordinate maps (not inverse pairs, not a complex): exact comparison only
+fn mg_random_case(r: &mut Rng, p: &Plan, len: usize, ddeg: i64) -> String {
+    let f = p.fam;
+    let dims: Vec<usize> = (0..len).map(|_| r.below(4) as usize).collect();
+    let mk = |r: &mut Rng, m: usize, n: usize| -> GM {
+        (0..m).map(|_| (0..n).map(|_| if r.chance(1, 2) { gz(f) } else { small_g(r, f, 2) }).collect()).collect()
+    };
+    let mut rows = vec![];
+    let mut mats = vec![];
+    for i in 0..len {
+        let tgt = i as i64 + ddeg;
+        let want = if tgt >= 0 && (tgt as usize) < len { dims[tgt as usize] } else { 0 };
+        let nr = if r.chance(1, 10) { r.below(3) as usize } else { want };
+        rows.push(nr);
+        let m = mk(r, nr, dims[i]);
+        mats.push(toks_of(r, p, &m).join(" "));
+    }
+    let mut parts = vec![format!("mg {} {} 0 {}", p.ring, ddeg, len)];
+    parts.push(dims.iter().map(|d| d.to_string()).collect::<Vec<_>>().join(" "));
+    parts.push(rows.iter().map(|d| d.to_string()).collect::<Vec<_>>().join(" "));
+    parts.extend(mats);
+    for i in 0..len {
+        let c = dims[i];
+        let v = r.below(4) as usize;
+        let mut d = vec![v.to_string()];
+        if v >= 1 {
+            let r1 = if r.chance(2, 3) { c } else { r.below(4) as usize };
+            d.push(r1.to_string());
+            d.push(unit_toks(p, &mk(r, r1, c)));
+            d.push(unit_toks(p, &mk(r, c, r1)));
+            if v >= 2 {
+                let r2 = if r.chance(2, 3) { r1 } else { r.below(4) as usize };
+                d.push(r2.to_string());
+                d.push(unit_toks(p, &mk(r, r2, r1)));
+                d.push(unit_toks(p, &mk(r, r1, r2)));
+            }
+        }
+        parts.push(join_nonempty(&d));
+    }
+    join_nonempty(&parts)
+}
+
+/// generate(..).reduced(), then Summand::merge of the homology of the reduced complex
+fn rd_case(r: &mut Rng, p: &Plan, len: usize, ddeg: i64) -> String {
+    let base = cx_case(r, p, len, ddeg, false);
+    format!("rd{}", &base[2..])
+}
+
 fn main() {
     quiet_panics();
     match parse_args() {
@@ -827,6 +1180,22 @@ fn main() {
                     let len = 1 + r.below(4) as usize;
                     let ddeg = if k % 2 == 0 { -1 } else { 1 };
                     emit(&mut o, cx_case(&mut r, p, len, ddeg, k % 10 == 9));
+                }
+                // 5. summands with coordinate maps: Summand::merge / Trans::reduce against the library's own route
+                for k in 0..(2 * p.cx) / 3 {
+                    let len = 1 + r.below(4) as usize;
+                    let ddeg = if k % 2 == 0 { -1 } else { 1 };
+                    if k % 6 == 5 {
+                        emit(&mut o, mg_random_case(&mut r, p, len, ddeg));
+                    } else {
+                        emit(&mut o, mg_case(&mut r, p, len, ddeg));
+                    }
+                }
+                // 6. the reduced complex, its homology merged back onto the original generators
+                for k in 0..p.cx / 4 {
+                    let len = 2 + r.below(3) as usize;
+                    let ddeg = if k % 2 == 0 { -1 } else { 1 };
+                    emit(&mut o, rd_case(&mut r, p, len, ddeg));
                 }
             }
             o.finish();
